@@ -8,7 +8,9 @@ import (
 	"fmt"
 	"os"
 	"path/filepath"
+	"runtime/debug"
 	"strings"
+	"time"
 
 	"github.com/monstermichl/typeshell/converters/bash"
 	"github.com/monstermichl/typeshell/converters/batch"
@@ -65,6 +67,10 @@ func pipeMode(work string) {
 	out := bufio.NewWriter(os.Stdout)
 	defer out.Flush()
 	n := 0
+	// unbounded recursion must die quickly (fatal "stack overflow", attributed to the case by the driver)
+	debug.SetMaxStack(32 << 20)
+	// per-case watchdog: a case that does not finish in time is reported as DIVERGE and ends the worker
+	var watchdog *time.Timer
 	for {
 		line, err := in.ReadString('\n')
 		line = strings.TrimRight(line, "\r\n")
@@ -86,6 +92,13 @@ func pipeMode(work string) {
 			mainPath := filepath.Join(dir, string(mainRel))
 			fmt.Fprintln(out, "CASE "+id)
 			out.Flush() // so that a fatal crash can be attributed
+			if watchdog != nil {
+				watchdog.Stop()
+			}
+			watchdog = time.AfterFunc(8*time.Second, func() {
+				os.Stdout.WriteString("WATCHDOG " + id + "\n")
+				os.Exit(3)
+			})
 			if strings.Contains(stages, "t") {
 				fmt.Fprintln(out, "TOK "+guard(func() string {
 					src, e := os.ReadFile(mainPath)
